@@ -7,6 +7,12 @@ from vlib.run import *
 def gen_strings(rng, n):
     out = ['', ' ', 'a', 'secret', 'héllo wörld', '中文字符', '\U0001F600\U0001F4A9', 'QUJD', 'AAAA', '{"a":1}', '"quoted"', 'back\\slash', 'line\nbreak', 'tab\there',
            '\x01\x02\x1f', 'a' * 8192, 'é' * 3000, 'p' * 511 + 'X', 'p' * 512 + 'Y', 'q' * 1024 + 'Z', 'r' * 4096 + 'W', 'x@y.co', 'Jane.Doe@Example.COM', ' pad@x.io ', 'UPPER@HOST.ORG', 'MiXeD.case+tag@Sub.Example.Org', '100% off %s', '-leading-dash', '--flag', "it's", '%s %d', 'not$field', 'REDACTED', '<b>&amp;</b>', '  ', '\x7f']
+    # bytes that a padding, trimming or terminator scheme treats specially, at either end of the value, and lengths around cipher block sizes
+    # (a value must come back EXACTLY: 'secret\x00' is not 'secret')
+    edge = ['\x00', '\x00\x00\x00', '\x01', '\x02\x02', '\x03\x03\x03', '\x04' * 4, '\x08' * 8, '\x10' * 16, '\x80', '\x80\x00\x00', ' ', '   ', '\t', '\n', '\r\n', '=', '==', '\u00a0', '\u200b', '\ufeff']
+    for e in edge:
+        out += ['secret' + e, e + 'secret']
+    out += ['\x00', '\x00\x00', 'mid\x00dle', 'b' * 15 + '\x00', 'b' * 16, 'b' * 15, 'b' * 17, 'b' * 31 + '\x01', 'b' * 32, 'b' * 16 + '\x10' * 16, 'é' * 8, 'é' * 7 + 'x\x00']
     while len(out) < n:
         k = rng.randint(0, 200)
         s = ''.join(chr(rng.choice([rng.randint(32, 126), rng.randint(0xa0, 0x2ff), rng.randint(0x4e00, 0x4eff), rng.randint(0x1f600, 0x1f64f)])) for _ in range(k))
@@ -33,7 +39,7 @@ def run(chk, replay=None):
             chk.disagree('base64', {'input_hex': hx(x)}, (h['enc'][:60], h['decok']), (unhx(me)[:60].decode(), md != '!'))
     chk.streams.append({'stream': 'base64 encode/decode model vs encoding/base64', 'cases': len(blobs) + len(texts)})
     # --- end to end through the CLI
-    strings = gen_strings(rng, 400 if th else 90)
+    strings = gen_strings(rng, 400 if th else 140)
     keys = [bytes(rng.randrange(256) for _ in range(64)) for _ in range(3)]
     with tempfile.TemporaryDirectory() as d:
         for ki, key in enumerate(keys):
